@@ -329,8 +329,7 @@ def single_plans(pts, rng, thorough, thin):
         for idx, attr, api in keep:
             for k in kinds_for(nm, attr):
                 if k == "I":
-                    for storm in ((1, 3, 50) if (thorough or idx < 3) else (1, 50)):
-                        plans.append(("at:%s.%s#%d=I%d" % (cls, nm, idx, storm), nm, "EINTR", api))
+                    plans.append(("at:%s.%s#%d=I1" % (cls, nm, idx), nm, "EINTR", api))
                 else:
                     plans.append(("at:%s.%s#%d=%s" % (cls, nm, idx, k), nm, k, api))
     return plans
@@ -381,7 +380,7 @@ def monitor(scen, plan, kind, ref, out, resolver):
     devs, lost, extra = [], [], []
     skip = {"fired", "live", "fdleak", "fdlost", "lsan", "alive", "reqs", "loop_close"}
     for k, vs in m.items():
-        if k in skip or k.startswith("WATCHDOG") or k in ("CAP", "stall"):
+        if k in skip or k.startswith("WATCHDOG") or k in ("CAP", "stall") or k.startswith("info."):
             continue
         rv = ref.get(k, [])
         for i, v in enumerate(vs):
@@ -390,13 +389,13 @@ def monitor(scen, plan, kind, ref, out, resolver):
             elif v.split("!")[0] != rv[i]:
                 devs.append((k, v.split("!")[0], rv[i]))
     for k, rv in ref.items():
-        if k in skip:
+        if k in skip or k.startswith("info."):
             continue
         if len(m.get(k, [])) < len(rv):
             lost.append(k)
     errvals = [v for _, v, _ in devs if ERRLIKE.match(v)] + [v for _, v in extra if ERRLIKE.match(v)]
     for k, v, r in devs:
-        if not ERRLIKE.match(v):
+        if not ERRLIKE.match(v) and not errvals:       # after a reported error later values are consequences
             probs.append(("wrong_value", "%s=%s where the fault-free run has %s (not an error code)" % (k, v, r)))
     if kind == "EINTR":
         bad = [v for v in errvals if v != "EINTR"]
@@ -466,7 +465,17 @@ def main():
             dev_known[k2] = {"property": "C16", "key": k2, "status": "known", "what": v2}
 
     def run(cases):
-        out, rc, err = vf.run_lines([exe], cases, timeout=3000, env=env, shards=vf.JOBS)
+        """round-robin over JOBS forking servers (slow cases are spread evenly)"""
+        import concurrent.futures
+        n = max(1, min(vf.JOBS, len(cases)))
+        parts = [cases[i::n] for i in range(n)]
+        with concurrent.futures.ThreadPoolExecutor(n) as ex:
+            res = list(ex.map(lambda part: vf.run_lines([exe], part, 3000, env, 1)[0], parts))
+        out = [""] * len(cases)
+        for i, r in enumerate(res):
+            for j, line in enumerate(r):
+                if i + j * n < len(cases):
+                    out[i + j * n] = line
         return out
 
     if chk.replay:
@@ -568,6 +577,19 @@ def main():
                 plans.append((s, a[0] + ";" + b[0], "EINTR" if a[2] == b[2] == "EINTR" else "pair", a[3], a[1]))
     cases = ["%s %s" % (s, pl) for s, pl, _, _, _ in plans]
     outs = run(cases)
+    # EINTR storms (3, 50) where a single EINTR was absorbed by a retry loop (otherwise a storm on a
+    # call that is not retried is just many independent faults)
+    storm = []
+    for (s, pl, kind, api, nm), o in zip(plans, outs):
+        if kind == "EINTR" and pl.endswith("=I1") and ";" not in pl and o.startswith("EXIT0") and " fired=1 " in o:
+            st_, ev_, _, _ = parse_out(o)
+            if not any(t.endswith("=EINTR") for t in ev_):
+                for k in (3, 50):
+                    storm.append((s, pl[:-1] + str(k), "EINTR", api, nm))
+    plans += storm
+    souts = run(["%s %s" % (s, pl) for s, pl, _, _, _ in storm])
+    cases += ["%s %s" % (s, pl) for s, pl, _, _, _ in storm]
+    outs += souts
     stats = collections.Counter()
     byapi = collections.Counter()
     findings = collections.OrderedDict()
